@@ -35,7 +35,12 @@ func genC17(t *rapid.T) c17Prog {
 		case 0, 1:
 			ops = append(ops, sim.Op{Kind: "publish", A: rapid.IntRange(0, w.Replicas-1).Draw(t, "pubrep")})
 		case 2:
-			ops = append(ops, sim.Op{Kind: "failnext"})
+			// Flag 1: the caller retries at once (a failed publication is published again; a failed append is
+			// repeated by a second replica of the same writer in the same state)
+			ops = append(ops, sim.Op{Kind: "failnext", Flag: rapid.IntRange(0, 1).Draw(t, "retry")})
+			if rapid.IntRange(0, 2).Draw(t, "failpub") == 0 { // the write that fails is a publication
+				ops = append(ops, sim.Op{Kind: "publish", A: rapid.IntRange(0, w.Replicas-1).Draw(t, "pubrep")})
+			}
 		case 3:
 			ops = append(ops, sim.Op{Kind: "twindeny", B: rapid.IntRange(0, 1<<10).Draw(t, "twin")})
 		}
@@ -63,7 +68,8 @@ func runC17(tb ev.TB, p c17Prog) ev.Result {
 	w := sim.New(tb, &p.World)
 	var rets []returned
 	manifests := world.Set{}
-	failArmed := false
+	failArmed, retryArmed := false, false
+	retries, pubRetries := 0, 0
 	mergeAppend, pubThenAppend := false, false
 	published := map[int]bool{}
 	nfail := 0
@@ -105,6 +111,7 @@ func runC17(tb ev.TB, p c17Prog) ev.Result {
 				continue // only appends and publications write blocks
 			}
 			failArmed = true
+			retryArmed = op.Flag == 1
 			target := w.Store.NumAdds()
 			w.Store.SetAddFail(func(nth int, c cid.Cid) error {
 				if nth == target {
@@ -122,6 +129,10 @@ func runC17(tb ev.TB, p c17Prog) ev.Result {
 				if err == nil {
 					tb.Fatalf("publishing an empty log returned no error")
 				}
+				if failArmed { // nothing was written: the injected failure must not hit a later operation
+					failArmed = false
+					w.Store.SetAddFail(nil)
+				}
 				continue
 			}
 			if failArmed {
@@ -134,6 +145,19 @@ func runC17(tb ev.TB, p c17Prog) ev.Result {
 					if d := before.diff(takeState(r.Log)); d != "" {
 						tb.Fatalf("op #%d failed publish changed the log: %s", i, d)
 					}
+					if !retryArmed {
+						continue
+					}
+					// the caller publishes again at once; the store accepts writes again
+					retries++
+					pubRetries++
+					c, err = r.Log.ToMultihash(ctx)
+					if err != nil {
+						tb.Fatalf("op #%d publishing again after a failed write: %v", i, err)
+					}
+					manifests.Add(c.String())
+					rets = append(rets, returned{kind: "manifest", c: c, prefix: w.Store.NumWrites(), set: r.Model.Clone(), heads: w.Reg.ModelHeads(r.Model), opIndex: i})
+					published[op.A%n] = true
 					continue
 				}
 				// no error although a write failed: legitimate only if the value returned is in the store after all
@@ -157,6 +181,7 @@ func runC17(tb ev.TB, p c17Prog) ev.Result {
 		}
 		writesBefore := w.Store.NumWrites()
 		addsBefore := w.Store.NumAdds()
+		clockBefore := w.Reps[a].Log.Clock.GetTime()
 		info := w.Exec(tb, i, op, false)
 		if op.Kind == "append" && failArmed {
 			failArmed = false
@@ -169,6 +194,26 @@ func runC17(tb ev.TB, p c17Prog) ev.Result {
 				if d := before.diff(takeState(w.Reps[a].Log)); d != "" {
 					tb.Fatalf("op #%d: failed append changed the log: %s", i, d)
 				}
+				if !retryArmed {
+					continue
+				}
+				// a second replica of the same writer, in the state this one had before the failed append, makes the
+				// same append (it produces the very block whose write just failed); the store accepts writes again
+				retries++
+				r := w.Reps[a]
+				tl, err := ipfslog.NewLog(w.Store.API(), r.Log.Identity, &ipfslog.LogOptions{ID: sim.LogID, Entries: r.Log.GetEntries(), SortFn: world.SortFn(w.Order), IO: w.IO,
+					Clock: entry.NewLamportClock(r.Log.Identity.PublicKey, clockBefore)})
+				if err != nil {
+					tb.Fatalf("op #%d twin log: %v", i, err)
+				}
+				te, err := tl.Append(ctx, []byte(op.Payload), &ipfslog.AppendOptions{PointerCount: op.PC, Pin: op.Pin})
+				if err != nil {
+					tb.Fatalf("op #%d: the same append on a second replica after the failed write: %v", i, err)
+				}
+				w.Reg.Record(te)
+				set := r.Model.Clone()
+				set.Add(te.GetHash().String())
+				rets = append(rets, returned{kind: "entry", c: te.GetHash(), prefix: w.Store.NumWrites(), set: set, heads: world.SetOf([]string{te.GetHash().String()}), opIndex: i})
 				continue
 			}
 			// no error although a write failed: legitimate only if the entry's block is in the store after all
@@ -330,6 +375,8 @@ func runC17(tb ev.TB, p c17Prog) ev.Result {
 	ev.Get("C17").AddExtra("write_prefixes_checked", total)
 	ev.Get("C17").AddExtra("loads_from_prefixes", loads)
 	ev.Get("C17").AddExtra("injected_write_failures", nfail)
+	ev.Get("C17").AddExtra("operations_repeated_right_after_a_failed_write", retries)
+	ev.Get("C17").AddExtra("publications_repeated_right_after_a_failed_write", pubRetries)
 	ev.Get("C17").AddExtra("failed_operations_that_left_other_blocks", leftovers)
 	ev.Get("C17").AddExtra("appends_issuing_other_than_one_block_write", multiWrite)
 	ev.Get("C17").AddExtra("refused_twin_appends", twins)
@@ -393,7 +440,7 @@ func (a state) diff(b state) string {
 func TestC17(t *testing.T) {
 	c := ev.Get("C17")
 	c.Level = "fault_enumeration"
-	c.Rule = "a generated multi-replica program over ONE shared store (appends with skip references, unbounded merges, identity changes, default or link-key codec) interleaved with manifest publications and injected block-write failures. Crash points are the boundaries between block writes of the fake store (every Dag().Add of the library is one atomic step): for EVERY write prefix of the history every entry block must decode and name only blocks written before it, and every manifest only stored heads. Every value returned to a caller (each append's hash, each manifest CID) is loaded from the store truncated to the prefix that existed when it was returned, from the final store and from further prefixes (all later prefixes in the thorough tier, 2 generated ones in quick) and must give exactly the entry set / heads / values of the log at that moment. An operation whose block write fails must either return an error and leave entries and heads unchanged, or return a value whose block is stored after all (it is then held to the same loads). Non-trivial = history with a merge-append (entry with >= 2 predecessors) and an append after a publication by the same replica; distinct = distinct program."
+	c.Rule = "a generated multi-replica program over ONE shared store (appends with skip references, unbounded merges, identity changes, default or link-key codec) interleaved with manifest publications, injected block-write failures (half of them followed at once by the same operation again: the publication repeated, the append made by a second replica of the same writer in the same state) and appends that an access controller refuses although they reproduce a committed block. Crash points are the boundaries between block writes of the fake store (every Dag().Add of the library is one atomic step): for EVERY write prefix of the history every entry block must decode and name only blocks written before it, and every manifest only stored heads. Every value returned to a caller (each append's hash, each manifest CID) is loaded from the store truncated to the prefix that existed when it was returned, from the final store and from further prefixes (all later prefixes in the thorough tier, 2 generated ones in quick) and must give exactly the entry set / heads / values of the log at that moment. An operation whose block write fails must either return an error and leave entries and heads unchanged, or return a value whose block is stored after all (it is then held to the same loads). Non-trivial = history with a merge-append (entry with >= 2 predecessors) and an append after a publication by the same replica; distinct = distinct program."
 	c.Assumptions = []string{"replicas share one store (the statement's setting); block writes are atomic", "the clock bump of a failed append is not part of the observable state checked (entries and heads are)"}
 	ev.Check(t, "C17", genC17, runC17)
 }
